@@ -150,6 +150,9 @@ type zvkInfo struct {
 	Cmt     string            `json:"cmt,omitempty"`  // hex of the comment (shim)
 	Path    string            `json:"path,omitempty"` // shim: "agent" / "hard"
 	Signed  bool              `json:"signed,omitempty"`
+	Pre     []string          `json:"pre,omitempty"`   // cert: hex KeyID texts of certificates examined immediately before, same goroutine
+	Order   int               `json:"order,omitempty"` // cert: 1 = the label is asked for before the type
+	Hist    []string          `json:"hist,omitempty"`  // cert: KeyID texts examined by this goroutine just before this record (a replay examines them first)
 }
 
 type zvkRec struct {
@@ -646,6 +649,13 @@ func zvkInstantiate(c zvkCase, r *mrand.Rand) zvkInfo {
 			}
 		}
 		return info
+	case "certpair":
+		base := zvkBaseText(zvkConcrete(c.K, r))
+		crit, cn := zvkCrit(c.Opt, r)
+		info := zvkInfo{Op: "cert", Text: hex.EncodeToString([]byte(zvkMutate(base, c.M, "delete", 0, r))),
+			Pre:  []string{hex.EncodeToString([]byte(zvkMutate(base, c.F, "delete", 0, r)))},
+			Crit: crit, CritNil: cn, Prins: []string{zvkRandStr(r), zvkRandStr(r)}, Order: c.V, Signed: r.Intn(16) == 0}
+		return info
 	case "nil":
 		return zvkInfo{Op: "cert", Nil: true, PrNil: true}
 	case "prins":
@@ -854,7 +864,48 @@ func zvkObserveKeyID(e *zvkEvent, crt *ssh.Certificate) {
 	}
 }
 
-func zvkExecCert(cs zvkCase, info *zvkInfo) *zvkEvent {
+// zvkExecCert examines the certificates with the KeyID texts info.Pre (if any) and then the one with info.Text, back to back
+// in this goroutine; one event per certificate.  The harness's own observation of the decoder comes AFTER the calls under
+// test, so that nothing is decoded between two certificates but what GetType / Label decode themselves.
+func zvkExecCert(cs zvkCase, info *zvkInfo, replay bool) []*zvkEvent {
+	var out []*zvkEvent
+	if replay {
+		for _, h := range info.Hist {
+			in := *info
+			in.Text, in.Pre, in.Hist = h, nil, nil
+			e := zvkCertCall(zvkFree, &in)
+			e.Rep = -1
+			out = append(out, e)
+		}
+	} else {
+		info.Hist = append([]string(nil), zvkCertHist...)
+	}
+	for i, pre := range info.Pre {
+		in := *info
+		in.Text, in.Pre = pre, nil
+		c0 := cs
+		if cs.Kind == "certpair" {
+			c0.N = 0
+		}
+		e := zvkCertCall(c0, &in)
+		e.Rep = i
+		out = append(out, e)
+	}
+	e := zvkCertCall(cs, info)
+	e.Rep = len(info.Pre)
+	return append(out, e)
+}
+
+// zvkCertHist: the KeyID texts of the last certificates examined by the test goroutine.
+var zvkCertHist []string
+
+func zvkCertCall(cs zvkCase, info *zvkInfo) *zvkEvent {
+	if !info.Nil {
+		zvkCertHist = append(zvkCertHist, info.Text)
+		if len(zvkCertHist) > 3 {
+			zvkCertHist = zvkCertHist[len(zvkCertHist)-3:]
+		}
+	}
 	e := zvkNewEvent("cert", cs)
 	e.Nil = info.Nil
 	crt := zvkBuildCert(info, 1)
@@ -864,19 +915,26 @@ func zvkExecCert(cs zvkCase, info *zvkInfo) *zvkEvent {
 		e.Opt = zvkOptClass(&obs)
 		e.Pin = zvkEncAll(crt.ValidPrincipals)
 	}
-	zvkObserveKeyID(e, crt)
 	func() {
 		defer func() {
 			if recover() != nil {
 				e.Pan = true
 			}
 		}()
+		label := func() {
+			lab, err := zvkLabel(crt)
+			e.Lok = err == nil
+			if err == nil {
+				e.Label = zvkEnc(lab)
+			}
+		}
+		if info.Order == 1 {
+			label()
+		}
 		ty := zvkGetType(crt)
 		e.Ty = zvkTypeName(ty)
-		lab, err := zvkLabel(crt)
-		e.Lok = err == nil
-		if err == nil {
-			e.Label = zvkEnc(lab)
+		if info.Order != 1 {
+			label()
 		}
 		var pin []string
 		if crt != nil {
@@ -885,6 +943,7 @@ func zvkExecCert(cs zvkCase, info *zvkInfo) *zvkEvent {
 		e.Pout = zvkEncAll(zvkGetPrincipals(pin, ty))
 		e.Pafter = zvkEncAll(pin)
 	}()
+	zvkObserveKeyID(e, crt)
 	return e
 }
 
@@ -950,6 +1009,7 @@ func zvkExecShim(t *testing.T, jobs []zvkShimJob) []*zvkEvent {
 	}
 	evs := make([]*zvkEvent, len(jobs))
 	blobs := make([]string, len(jobs))
+	certs := make([]*ssh.Certificate, len(jobs))
 	for i, j := range jobs {
 		e := zvkNewEvent("shim", j.cs)
 		evs[i] = e
@@ -960,7 +1020,7 @@ func zvkExecShim(t *testing.T, jobs []zvkShimJob) []*zvkEvent {
 		e.Pin = zvkEncAll(crt.ValidPrincipals)
 		cb, _ := hex.DecodeString(j.info.Cmt)
 		e.Ocmt = zvkEnc(string(cb))
-		zvkObserveKeyID(e, crt)
+		certs[i] = crt
 		if j.info.Path == "hard" {
 			func() {
 				defer func() {
@@ -999,6 +1059,7 @@ func zvkExecShim(t *testing.T, jobs []zvkShimJob) []*zvkEvent {
 		seen[string(k.Blob)] = true
 	}
 	for i, e := range evs {
+		zvkObserveKeyID(e, certs[i]) // after the calls under test: nothing else decodes between the certificates of a listing
 		e.Pan = e.Pan || pan
 		if seen[blobs[i]] {
 			e.Found = true
@@ -1224,7 +1285,8 @@ func TestVerifKeyID(t *testing.T) {
 			}
 			emitAll(tid, main, zvkExecDec(cs, &in, calls), &in)
 		case "cert":
-			emit(tid, zvkExecCert(cs, &in), &in)
+			evs := zvkExecCert(cs, &in, strings.HasPrefix(tid, "p"))
+			emitAll(tid, len(evs)-1, evs, &in)
 		case "prins":
 			main := 0
 			if cs.Kind == "prins" {
@@ -1298,6 +1360,23 @@ func TestVerifKeyID(t *testing.T) {
 			continue
 		}
 		run(fmt.Sprintf("bc%d", i), zvkFree, randCert(r))
+	}
+	for i := 0; i < plan.Random["certpair"]; i++ {
+		// a certificate whose KeyID lacks one field, then one lacking another field (any two of the twelve), back to back
+		r := verifh.NewRand("keyid-certpair", int64(i))
+		k := zvkConcrete(zvkValidAbs(r), r)
+		base := zvkBaseText(k)
+		x := zvkAllFields[r.Intn(len(zvkAllFields))]
+		y := zvkAllFields[r.Intn(len(zvkAllFields))]
+		crit, cn := zvkCrit([]string{"absent", "empty", "set"}[r.Intn(3)], r)
+		info := zvkInfo{Op: "cert", Text: hex.EncodeToString([]byte(zvkMutate(base, y, "delete", 0, r))),
+			Pre:  []string{hex.EncodeToString([]byte(zvkMutate(base, x, "delete", 0, r)))},
+			Crit: crit, CritNil: cn, Prins: zvkRandPrins(r), Order: r.Intn(2)}
+		info.PrNil = info.Prins == nil
+		if r.Intn(3) == 0 {
+			info.Pre = append(info.Pre, hex.EncodeToString([]byte(zvkRandText(r))))
+		}
+		run(fmt.Sprintf("bx%d", i), zvkFree, info)
 	}
 	for i := 0; i < plan.Random["prins"]; i++ {
 		r := verifh.NewRand("keyid-prins", int64(i))
